@@ -160,6 +160,51 @@ pub fn check_item(it: &Item, c: &Ctx, budget: u64, acc: &mut Acc) {
             Some(m) => acc.violate(viol(m.kind, it, c, case, format!("{call}: {}", m.detail))),
         }
     }
+    // (4) the same windows in contexts with an interval-size bound: the approximation may end an
+    //     interval early or late, but "no reported interval starts before the requested start or
+    //     ends after min(requested end, 10000-01-01)" holds in every context (the bounded
+    //     iterator has its own return path). Nothing else is asserted here: after an approximated
+    //     interval the bounded iterator goes on from its internal cursor, so later intervals can
+    //     overlap the approximated one — no property speaks about that (DESIGN §11.6)
+    for bound_days in [1i64, 366] {
+        let ohb = match catch(|| OpeningHours::parse(&it.text)) {
+            Ok(Ok(oh)) => oh.with_context(c.real.clone().approx_bound_interval_size(chrono::Duration::days(bound_days))),
+            _ => return,
+        };
+        let cb = opening_hours::verif_schedule_count();
+        for f in &ts {
+            for t in ts.iter().map(|t| Some(*t)).chain([None]) {
+                if opening_hours::verif_schedule_count() - cb > budget / 4 {
+                    acc.add("bounded_windows_skipped_after_budget", 1);
+                    continue;
+                }
+                acc.add("transitions", 1);
+                acc.add("evaluations", 1);
+                let case = json!({"from": fmt_dt(*f), "to": t.map(fmt_dt), "bound_days": bound_days});
+                let call = match t {
+                    Some(t) => format!("[bound {bound_days} d] iter_range({}, {})", fmt_dt(*f), fmt_dt(t)),
+                    None => format!("[bound {bound_days} d] iter_from({})", fmt_dt(*f)),
+                };
+                let real = match t {
+                    Some(t) => stream::collect_range(&ohb, *f, t, 20),
+                    None => stream::collect_from(&ohb, *f, 20),
+                };
+                let real = match real {
+                    Ok(r) => r,
+                    Err(pi) => {
+                        acc.violate(viol("iterator_panic", it, c, case, format!("{call} panicked: {} at {}", pi.msg, pi.loc)));
+                        continue;
+                    }
+                };
+                let cap = t.unwrap_or(DATE_END).min(DATE_END);
+                if let Some((s, e, _)) = real.iter().find(|(s, e, _)| !(*f <= *s && *s < *e && *e <= cap)) {
+                    acc.violate(viol("interval_leaves_requested_window", it, c, case, format!("{call} yields [{} .. {}), allowed window is [{}, {}]", fmt_dt(*s), fmt_dt(*e), fmt_dt(*f), fmt_dt(cap))));
+                    continue;
+                }
+                acc.add("traces_validated_against_impl", 1);
+            }
+        }
+    }
 }
 
 struct Guard(std::time::Instant, u64, NaiveDateTime, Option<NaiveDateTime>);
@@ -216,12 +261,21 @@ pub fn family(cfg: &Cfg) -> Vec<Item> {
     push(&expr(vec![al::mk_rule(&DaySelector::default(), &[], &mods[1])]), &mut items);
     push(&expr(vec![al::mk_rule(&DaySelector::default(), &[], &mods[2])]), &mut items);
     if !cfg.quick() {
-        for e in al::e1(1) {
-            if e.rules[0].comments.is_empty() {
-                push(&e, &mut items);
+        // every alphabet selector with no time, a span passing midnight and a span reaching 48:00
+        // (each item costs a pointwise oracle over all 2 958 466 days plus its window budget: the
+        // first thorough run, with every time value and the whole corpus, had not finished after
+        // 55 min), and every 4th corpus line
+        for ds in al::day_selectors(1) {
+            for ti in [0usize, 3, 6] {
+                for m in [&mods[0], &mods[1]] {
+                    push(&expr(vec![al::mk_rule(&ds, &ts[ti], m)]), &mut items);
+                }
             }
         }
-        for s in al::corpus(&cfg.repo) {
+        for (i, s) in al::corpus(&cfg.repo).into_iter().enumerate() {
+            if i % 4 != 0 {
+                continue;
+            }
             if let Ok(e) = opening_hours_syntax::parse(&s) {
                 items.push(Item { text: s, feats: features::of_expr(&e), full: true, deep: true });
             }
@@ -247,7 +301,7 @@ pub fn run(cfg: &Cfg) -> Outcome {
                 return acc;
             }
             let t0 = std::time::Instant::now();
-            check_item(&items[*i], &ctxs[*c], if cfg.quick() { 4_000_000 } else { 30_000_000 }, &mut acc);
+            check_item(&items[*i], &ctxs[*c], if cfg.quick() { 4_000_000 } else { 12_000_000 }, &mut acc);
             if std::env::var("OHMC_SLOW").is_ok() && t0.elapsed().as_secs_f64() > 2.0 {
                 eprintln!("slow item {:.1}s: {} [{}]", t0.elapsed().as_secs_f64(), items[*i].text, ctxs[*c].name);
             }
